@@ -1,0 +1,29 @@
+//go:build verif
+
+package wire
+
+import "sync/atomic"
+
+// VerifHook is called at every scheduling point of the shutdown protocol
+// inside verification builds. The verification harness uses it to hold each
+// goroutine at a named point and to release them in a chosen order.
+type VerifHook func(srv *Server, point string)
+
+var verifHook atomic.Pointer[VerifHook]
+
+// SetVerifHook installs (or removes, when nil) the scheduling point hook.
+func SetVerifHook(hook VerifHook) {
+	if hook == nil {
+		verifHook.Store(nil)
+		return
+	}
+
+	verifHook.Store(&hook)
+}
+
+func verifPoint(srv *Server, name string) {
+	hook := verifHook.Load()
+	if hook != nil {
+		(*hook)(srv, name)
+	}
+}
